@@ -2,6 +2,7 @@ package main
 
 import (
 	"fmt"
+	"go/constant"
 	"go/token"
 	"go/types"
 	"path/filepath"
@@ -15,22 +16,23 @@ import (
 )
 
 type Program struct {
-	SSA      *ssa.Program
-	Fset     *token.FileSet
-	Pkgs     []*packages.Package
-	SPkgs    map[string]*ssa.Package // by import path
-	ModPath  string
-	RepoDir  string
-	contracts map[string]*PkgContracts // by import path
-	mu       sync.Mutex
-	sums     map[*ssa.Function]*Modset
-	direct   map[*ssa.Function]*funcMods
-	keyDescs map[string]keyDesc
-	scratch  *Exec
-	allFuncs map[*ssa.Function]bool
-	funcIDs  map[*ssa.Function]int
-	addrTaken []*ssa.Function
-	addrDone  bool
+	SSA        *ssa.Program
+	Fset       *token.FileSet
+	Pkgs       []*packages.Package
+	SPkgs      map[string]*ssa.Package // by import path
+	ModPath    string
+	RepoDir    string
+	contracts  map[string]*PkgContracts // by import path
+	mu         sync.Mutex
+	sums       map[*ssa.Function]*Modset
+	direct     map[*ssa.Function]*funcMods
+	keyDescs   map[string]keyDesc
+	scratch    *Exec
+	allFuncs   map[*ssa.Function]bool
+	funcIDs    map[*ssa.Function]int
+	addrTaken  []*ssa.Function
+	addrDone   bool
+	bvTypes    map[types.Object]int
 	globalLens map[*ssa.Global]int64
 	mapConst   map[*ssa.Global]bool
 }
@@ -87,10 +89,26 @@ func LoadProgram(repo string) (*Program, error) {
 		for _, pd := range pc.Preds {
 			pd.PkgPath = pk.PkgPath
 		}
+		pc.PkgPath = pk.PkgPath
 		p.contracts[pk.PkgPath] = pc
+	}
+	p.bvTypes = map[types.Object]int{}
+	for _, pk := range pkgs {
+		pc := p.contracts[pk.PkgPath]
+		if pc == nil || pk.Types == nil {
+			continue
+		}
+		for _, name := range pc.BVTypes {
+			tn, ok := pk.Types.Scope().Lookup(name).(*types.TypeName)
+			if !ok || !isUnsigned(tn.Type()) {
+				return nil, fmt.Errorf("bvtype %s: not an unsigned named type of package %s", name, pk.PkgPath)
+			}
+			p.bvTypes[tn] = int(bitsOf(tn.Type()))
+		}
 	}
 	p.allFuncs = ssautil.AllFunctions(prog)
 	w := NewWorld(p.ModPath)
+	w.bv = p.bvTypes
 	p.scratch = &Exec{W: w, Prog: p, keys: map[string]*HeapKey{}, Abstr: map[string]bool{}, Unsound: map[string]bool{}, siteCtr: map[string]int{}, bitsDecl: map[string]int{}}
 	return p, nil
 }
@@ -228,6 +246,27 @@ func (p *Program) GlobalSliceLen(g *ssa.Global) (int64, bool) {
 	}
 	n, ok := p.globalLens[g]
 	return n, ok
+}
+
+// GlobalInitString: the literal a package-level string variable is initialised with.
+func (p *Program) GlobalInitString(g *ssa.Global) (string, bool) {
+	if g.Pkg == nil {
+		return "", false
+	}
+	init := g.Pkg.Func("init")
+	if init == nil {
+		return "", false
+	}
+	for _, b := range init.Blocks {
+		for _, in := range b.Instrs {
+			if st, ok := in.(*ssa.Store); ok && st.Addr == ssa.Value(g) {
+				if c, ok := st.Val.(*ssa.Const); ok && c.Value != nil && c.Value.Kind() == constant.String {
+					return constant.StringVal(c.Value), true
+				}
+			}
+		}
+	}
+	return "", false
 }
 
 // GlobalMapConst: the global map is filled only by the package initialiser (no MapUpdate or store elsewhere),
@@ -482,6 +521,8 @@ func (p *Program) KeyInfo(ex *Exec, name string) *HeapKey {
 		return ex.keyPtr(d.elem)
 	case 'G':
 		return ex.keyGlobal(d.global)
+	case 'X':
+		return ex.penKey()
 	case 'L':
 		a, n := ex.logKeys(name[2:])
 		if name[0] == 'L' {
@@ -574,6 +615,17 @@ func (p *Program) addRoot(ms *Modset, ri rootInfo, loopBlocks map[*ssa.BasicBloc
 				invariant = true
 			case ssa.Instruction:
 				invariant = !loopBlocks[b.Block()]
+				if !invariant {
+					// a field of an object whose pointer is loop-invariant, re-read in every iteration: the base is
+					// invariant provided the loop does not store to that field (checked once the set is complete)
+					if fk := p.invariantFieldLoad(b, loopBlocks); fk != "" {
+						invariant = true
+						if ms.refLoads == nil {
+							ms.refLoads = map[ssa.Value]string{}
+						}
+						ms.refLoads[ri.base] = fk
+					}
+				}
 			}
 		}
 		if key[0] == 'G' {
@@ -602,6 +654,33 @@ func (p *Program) addRoot(ms *Modset, ri rootInfo, loopBlocks map[*ssa.BasicBloc
 	if ri.key != "" {
 		add(ri.key)
 	}
+}
+
+// invariantFieldLoad: in is `*(&p.f)` with p defined outside the loop; the key of field f is returned.
+func (p *Program) invariantFieldLoad(in ssa.Instruction, loopBlocks map[*ssa.BasicBlock]bool) string {
+	u, ok := in.(*ssa.UnOp)
+	if !ok || u.Op != token.MUL {
+		return ""
+	}
+	fa, ok := u.X.(*ssa.FieldAddr)
+	if !ok {
+		return ""
+	}
+	switch b := fa.X.(type) {
+	case *ssa.Parameter:
+	case ssa.Instruction:
+		if loopBlocks[b.Block()] {
+			return ""
+		}
+	default:
+		return ""
+	}
+	st := fa.X.Type().Underlying().(*types.Pointer).Elem()
+	if _, isStruct := st.Underlying().(*types.Struct); !isStruct || p.scratch.W.DT(p.scratch.W.SortOf(st)) == nil {
+		return ""
+	}
+	k := p.scratch.keyField(st, fa.Field)
+	return p.noteKey(k.Name, keyDesc{kind: 'F', st: st, field: fa.Field})
 }
 
 // directMods analyses one function body (no transitive callees).
@@ -672,6 +751,9 @@ func (p *Program) callMods(fm *funcMods, cc *ssa.CallCommon, paramIdx map[*ssa.P
 			fm.ms.all = true
 		}
 		return
+	}
+	if k, _ := sinkKind(callee); k == "write" || k == "printf" {
+		fm.ms.keys[p.noteKey("X:pen", keyDesc{kind: 'X'})] = true
 	}
 	if !sx.W.inModule(pkgOf(callee)) || len(callee.Blocks) == 0 || opaquePkg(pkgOf(callee)) {
 		full := callee.String()
